@@ -28,10 +28,11 @@ KEY_PANIC = "limit-offset-sum-negative-panic"
 KEY_ESC = "term-search-misses-json-escaped-host-on-disk"
 KEY_FOLD = "substring-term-misses-capital-s-k-inside-client-name"
 KEY_HID = "scan-window-ending-on-hidden-record-ends-paging"
-SIG_KEYS = {"skip": KEY_SKIP, "esc": KEY_ESC, "fold": KEY_FOLD, "hid": KEY_HID}
+KEY_INV = "concurrent-add-inverts-timestamp-order"
+SIG_KEYS = {"skip": KEY_SKIP, "esc": KEY_ESC, "fold": KEY_FOLD, "hid": KEY_HID, "inv": KEY_INV}
 
-ACTIONS_MC = ["DoRec", "DoEnc", "AutoEnc", "DoApp", "DoAppFails", "DoRotate", "DoRotCheck", "DoClear", "DoConf", "DoRestart", "DoSearch"]
-ACTIONS_GEN = ["rec", "enc", "app", "appfail", "autoflush", "autoflushfail", "rotate", "rotcheck", "clear", "conf", "restart"]
+ACTIONS_MC = ["DoRec", "DoStamp", "DoPush", "DoEnc", "AutoEnc", "DoApp", "DoAppFails", "DoRotate", "DoRotCheck", "DoClear", "DoConf", "DoRestart", "DoSearch"]
+ACTIONS_GEN = ["rec", "stamp", "push", "enc", "app", "appfail", "autoflush", "autoflushfail", "rotate", "rotcheck", "clear", "conf", "restart"]
 
 
 # ------------------------------------------------------------------ classification
@@ -62,6 +63,11 @@ def window_ok(older, limit, universe, got):
     return not universe or oldest > universe[0]
 
 
+def _is_subseq(a, b):
+    it = iter(b)
+    return all(x in it for x in a)
+
+
 def classify_query(q, got):
     """The key under which a disagreement is registered: when the symptom fits several signatures,
     one that belongs to an open finding is preferred (a fixed one would be a regression)."""
@@ -83,9 +89,19 @@ def classify_all(q, got):
     for name, data, oldest in sigs:
         if name == "skip" and older == 0:
             continue
+        if name == "invdisk":
+            # A cursor request over files that are out of timestamp order: anything drawn
+            # from the selected sequence (typically an empty page that says "end").
+            if cls == "exact" and got.get("st") == "ok" and _is_subseq(list(got.get("data") or []), list(data)):
+                keys.append(KEY_INV)
+            continue
         if cls == "exact" and got.get("st") == "ok" and list(got.get("data") or []) == list(data) \
                 and got.get("oldest") == oldest:
             keys.append(SIG_KEYS.get(name))
+        if cls == "window" and name == "invwin":
+            if got.get("st") == "ok" and _is_subseq(list(got.get("data") or []), list(data)):
+                keys.append(KEY_INV)
+            continue
         if cls == "window" and name == "hid":
             # An empty page saying "end", selected entries still to come, and a
             # hidden on-disk record between the cursor and the next of them.
@@ -124,6 +140,10 @@ def model_check(ctx, res):
         res["mc_cov"] = coverage_counts(r["out"])
         # The same invariants with the ignore list changing (small universe).
         ctx.tlc("QueryLog", "QueryLog.mcig.cfg", workers=4, timeout=300)
+        # ... and with overlapping Adds (Stamp / Push): replies in timestamp order whatever the
+        # order of storage.
+        rc = ctx.tlc("QueryLog", "QueryLog.mccc.cfg", workers=4, timeout=300, coverage=True)
+        res["mc_cov"].update({k: v for k, v in coverage_counts(rc["out"]).items() if k in ("DoStamp", "DoPush")})
     except Exception as e:  # re-raised by the main thread
         res["err"] = e
 
@@ -171,7 +191,7 @@ def build_graph(vectors):
         groups.append({"k": "g", "src": s, "act": act, "args": json.loads(args), "dsts": d})
     inits = [ids[k] for k, st in states.items()
              if st["ck"] == 0 and not st["mem"] and not st["cur"] and not st["rot"] and not st["batch"]
-             and not st["fp"] and st["en"] and not st["an"] and not st["ig"]]
+             and not st["fp"] and st["en"] and not st["an"] and not st["ig"] and not st["fl"]]
     return table, rows, groups, sorted(inits)
 
 
@@ -203,13 +223,15 @@ def replay_record(ctx, table, rec):
 
 
 # ------------------------------------------------------------------ direction B
-TRACE_EVS = {"init", "rec", "recn", "flush", "flushfail", "autoflushfail", "stall", "rotcheck", "autoflush", "rotate", "clear", "conf", "restart", "search"}
+TRACE_EVS = {"init", "rec", "recn", "burst", "flush", "flushfail", "autoflushfail", "stall", "rotcheck", "autoflush", "rotate", "clear", "conf", "restart", "search"}
 
 
 def run_history(ctx, hist, nrec, mem=None, big=False):
     tout = ctx.path("c07_trace_%d.ndjson" % hist)
     env = {"VERIF_OUT": tout, "VERIF_C07_HIST": str(hist), "VERIF_C07_RECORDS": str(nrec)}
-    if isinstance(big, str) and big.startswith("scanlog"):
+    if big == "burst":
+        env["VERIF_C07_BURST"] = "1"
+    elif isinstance(big, str) and big.startswith("scanlog"):
         env["VERIF_C07_SCANLOG"] = big.split(":")[1]
     elif big:
         env["VERIF_C07_BIG"] = "1"
@@ -223,11 +245,11 @@ def run_history(ctx, hist, nrec, mem=None, big=False):
     return rows, summ[0]
 
 
-def validate_history(ctx, hist, rows):
+def validate_history(ctx, hist, rows, cfg="TraceQueryLog.cfg"):
     lines = [r for r in rows if r.get("ev") in TRACE_EVS]
     tfile = ctx.path("c07_tlc_trace_%d.ndjson" % hist)
     vlib.write_ndjson(tfile, lines)
-    r = ctx.tlc("TraceQueryLog", "TraceQueryLog.cfg", workers=1, extra_files=[(tfile, "trace.ndjson")], timeout=600)
+    r = ctx.tlc("TraceQueryLog", cfg, workers=1, extra_files=[(tfile, "trace.ndjson")], timeout=600)
     verdict = [v for v in r["vectors"] if v.get("k") == "verdict"]
     if not verdict:
         raise vlib.Inconclusive("trace spec produced no verdict for history %d" % hist)
@@ -308,7 +330,8 @@ def _run_bindings(ctx):
     # ---------------- direction A: the main graph, and a smaller one in which the ignore list changes
     # thorough: the ignore-list graph completely, the main graph within a step budget that covers
     # about two thirds of its edge groups (seeded choice; `exhaustive' says whether all were covered).
-    plan = [("QueryLog.gen.cfg", 3700 if ctx.quick else 100000), ("QueryLog.genig.cfg", 800 if ctx.quick else 0)]
+    plan = [("QueryLog.gen.cfg", 3000 if ctx.quick else 100000), ("QueryLog.genig.cfg", 700 if ctx.quick else 0),
+            ("QueryLog.gencc.cfg", 800 if ctx.quick else 0)]
     res, by_act, table = [], {}, None
     summ = {k: 0 for k in ("walks", "steps", "queries", "covered", "groups", "bad", "flaky", "discards", "transit", "unobservable")}
     nrows = nstates_obs = nontrivial = 0
@@ -323,7 +346,8 @@ def _run_bindings(ctx):
             gens[cfg] = e
 
     gthreads = [threading.Thread(target=generate, args=(plan[0][0], 4)),
-                threading.Thread(target=generate, args=(plan[1][0], 2))]
+                threading.Thread(target=generate, args=(plan[1][0], 2)),
+                threading.Thread(target=generate, args=(plan[2][0], 2))]
     for t in gthreads:
         t.start()
     for (cfg, budget), gt in zip(plan, gthreads):
@@ -403,10 +427,10 @@ def _run_bindings(ctx):
     # history with scan limit N: 50000 = the server's limit through the plain handler (thorough only),
     # 30 = the same history at scale.
     if ctx.quick:
-        hists, nrec = [(7, False), (None, False), (200, "scanlog:30")], 300
+        hists, nrec = [(7, False), (None, False), (200, "scanlog:30"), (2000, "burst")], 300
     else:
         hists, nrec = [(7, False), (200, True), (None, False), (None, False), (60000, "scanlog:50000"),
-                       (200, "scanlog:30")], 2000
+                       (200, "scanlog:30"), (2000, "burst")], 2000
     nhist = len(hists)
     binding_demo = None
     tlines = tbad = tflaky = 0
@@ -426,7 +450,8 @@ def _run_bindings(ctx):
             if r.get("ev") == "payload":
                 ctx.disagreement(None, {"dir": "B", "what": "payload", "hist": hst, "seed": ctx.seed, "detail": r["d"]},
                                  "payload differs in history %d: %s" % (hst, json.dumps(r["d"])[:300]))
-        lines, verdict, wants = validate_history(ctx, hst, rows_b)
+        tcfg = "TraceQueryLog.cc.cfg" if big == "burst" else "TraceQueryLog.cfg"
+        lines, verdict, wants = validate_history(ctx, hst, rows_b, cfg=tcfg)
         if binding_demo is None and not verdict["stuck"]:
             binding_demo = corrupted_line_is_rejected(ctx, lines, verdict)
         tlines += len(lines)
@@ -456,7 +481,7 @@ def _run_bindings(ctx):
         if unknown or stuck:
             # Reproduce: the driver is deterministic in (seed, history); run it again.
             rows2, sb2 = run_history(ctx, hst, nrec, mem=mem, big=big)
-            lines2, verdict2, wants2 = validate_history(ctx, hst, rows2)
+            lines2, verdict2, wants2 = validate_history(ctx, hst, rows2, cfg=tcfg)
             for ln, key, rec in unknown:
                 if ln in verdict2["bad"] and ln <= len(lines2) and lines2[ln - 1]["p"] == lines[ln - 1]["p"]:
                     ctx.disagreement(key, rec, describe_query(rec["q"], rec["got"]))
